@@ -6,7 +6,7 @@ import nscheck, vlib
 from vlib import Infra
 
 
-def wrap_run(pid, tier, seed, kinds, targets, buildlen, wraplen):
+def wrap_run(pid, tier, seed, kinds, targets, buildlen, wraplen, extra_env=None):
     run = nscheck.NsRun(pid, tier, seed)
     run.build()
     for kind in kinds:
@@ -15,16 +15,16 @@ def wrap_run(pid, tier, seed, kinds, targets, buildlen, wraplen):
                 continue
             edges = run.sc.path("wrap-%s-%s.ndjson" % (kind, target))
             r = vlib.run_tlc(run.sc, "MCwrap", "MCwrap.cfg", name="wrap-%s-%s" % (kind, target), timeout=3000, heap="12g",
-                             env={"VERIF_KIND": kind, "VERIF_BUILDLEN": buildlen, "VERIF_WRAPLEN": wraplen,
-                                  "VERIF_EDGES": edges, "VERIF_IMPL": target})
+                             env=dict({"VERIF_KIND": kind, "VERIF_BUILDLEN": buildlen, "VERIF_WRAPLEN": wraplen,
+                                       "VERIF_EDGES": edges, "VERIF_IMPL": target}, **(extra_env or {})))
             if not r["ok"]:
                 raise Infra("the wrapper specification violates its own properties (%s):\n%s" % (kind, r["out"][-3000:]))
             run.cov["states"] += r["distinct"]
             run.cov["transitions"] += r["generated"]
             run.cov["tlc_runs"].append({"model": "WrapSpec", "kind": kind, "base": target, "build_len": buildlen,
                                         "wrapper_calls": wraplen, "generated": r["generated"], "distinct": r["distinct"],
-                                        "checked": ["RoNeverChangesBase", "RoRefusesMutators", "InjectedIsReturned", "BpConfines"]})
-            run.replay(edges, target, names="a,b,B,f,s" if kind == "basepath" else "a,b")
+                                        "checked": ["RoNeverChangesBase", "RoRefusesMutators", "InjectedIsReturned", "BpConfines", "SubConfines"]})
+            run.replay(edges, target, names="a,b,B,f,s" if kind in ("basepath", "sub") else "a,b")
             if not run.cov["samples"]:
                 with open(edges) as f:
                     for i, line in enumerate(f):
@@ -71,5 +71,18 @@ def check_c10(tier, seed):
                               "%d consecutive wrapper calls (Chdir in the history)" % (1 if q else 2)
         return nscheck.finish(run, "C10", extra_assumptions=["no symbolic links in the base (BasePathFS does not advertise them)",
                                                               "every string returned or embedded in an error is scanned for the base path"])
+    finally:
+        run.close()
+
+
+def check_c11(tier, seed):
+    q = tier == "quick"
+    run = wrap_run("C11", tier, seed, ["sub"], ["memfs"], 0, 2, extra_env=None if q else {"VERIF_SUBALL": "1"})
+    try:
+        run.cov["exhaustive"] = True
+        run.cov["universe"] = "MemFS.Sub at /w/B%s over the C10 base tree; the C10 path strings and call templates plus SetUMask through the view; " \
+                              "2 consecutive calls through the view (Chdir / SetUMask, then any call); after every call the parent's tree, " \
+                              "working directory and umask are compared" % ("" if q else ", /w and /")
+        return nscheck.finish(run, "C11", extra_assumptions=["symlink-free trees, as the property states", "SetUser through the view is exercised by C03's runs"])
     finally:
         run.close()
